@@ -57,6 +57,22 @@ for p in (pipelines or [None])[:1]:
         res = ["RAISED", type(e).__name__, str(e)]
     outs_b.append({"queries": res, "errors": [[r.title, type(e).__name__, str(e)] for r, e in b.errors]})
 sections["conversions_backend_without_regex_escaping"] = outs_b
+# 3a'. a backend class that supports fewer features than the rules use (one regular-expression flag, no CIDR, no
+# field comparison, no compare operators): the error records name what is unsupported
+from sigma.types import SigmaRegularExpressionFlag as _F
+Reduced = type("Reduced", (TextQueryTestBackend,), {
+    "re_flags": {_F.IGNORECASE: "i"}, "re_flag_prefix": False, "re_expression": "{field}=~/{regex}/{flag_i}",
+    "field_equals_field_expression": None, "compare_op_expression": None, "case_sensitive_match_expression": None})
+outs_r = []
+for p in (pipelines or [None])[:1]:
+    c = SigmaCollection.from_dicts(json.loads(json.dumps(corpus["docs"])), collect_errors=True)
+    b = Reduced(p, collect_errors=True)
+    try:
+        res = b.convert(c)
+    except Exception as e:  # noqa
+        res = ["RAISED", type(e).__name__, str(e)]
+    outs_r.append({"queries": res, "errors": [[r.title, type(e).__name__, str(e)] for r, e in b.errors]})
+sections["conversions_backend_with_fewer_features"] = outs_r
 # 3b. the same with the verification backend (in-expressions, not-equals, correlation templates with
 # typing / fields / normalisation expressions: code paths the stock test backend leaves unset)
 sys.path.insert(0, sys.argv[4]) if len(sys.argv) > 4 else None
